@@ -125,6 +125,13 @@ def run(chk):
     pid, tier = chk.pid, chk.tier
     rows, r = chk.model_check('MC_Reduce.tla', 'MC_Reduce_C15_%s.cfg' % tier, label='MC_Reduce', must_print=True)
     rows = [x for x in rows if x.get('k') == 'reduce']
+    # the negative instance must be REJECTED by TLC: the rule cumprod had before repair D27 ("n words, n fractions") does not hold
+    # every partial product when the integer or the fraction length is negative
+    from .. import tlc
+    rn = tlc.run('MC_Reduce.tla', 'MC_Reduce_C15_neg.cfg')
+    chk.subruns.append(dict(rn.summary(), label='negative instance: cumprod sized for the last product only', kind='model-check (must fail)'))
+    if not rn.violated:
+        raise core.Machinery('the negative instance (old cumprod rule) was not rejected by TLC')
     chk.extra['small_world'] = {'configurations': len(rows)}
     chk.exhaustive = True
     n = (160 if tier == 'quick' else 3000)
